@@ -12,8 +12,10 @@ from .state import Obligation
 _TOKEN = re.compile(r"[^\s()]+")
 
 
-def smt_text(decls: Decls, ob: Obligation, negate=True) -> str:
+def smt_text(decls: Decls, ob: Obligation, negate=True, observe=None) -> str:
     body = []
+    for i, (path, t, kn) in enumerate(observe or []):
+        body.append(f"(define-fun obs!{i} () {t.sort} {t.s})")
     for t in ob.pc:
         body.append(f"(assert {t.s})")
     if negate:
@@ -33,8 +35,20 @@ def smt_text(decls: Decls, ob: Obligation, negate=True) -> str:
 
 
 def _work(job):
-    idx, text, expect, budget, want = job
+    idx, text, expect, budget, want = job[:5]
+    refine = job[5] if len(job) > 5 else None
     r = solve(text, expect, budget, want_model_for=want)
+    if r["result"] == "sat" and expect == "unsat" and refine:
+        # refine with the concrete word layouts (true facts): either a better model or a proof
+        r2 = solve(text + "\n" + refine, expect, budget, want_model_for=want)
+        if r2["result"] in ("sat", "unsat"):
+            r2["seconds"] += r["seconds"]
+            r2["refined"] = True
+            if r2["result"] == "unsat":
+                r2["solver"] = str(r2["solver"]) + "+layout"
+            r = r2
+    if r["result"] == "sat" and want and "(" not in r.get("raw", "sat\n")[3:].strip()[:1]:
+        pass
     return idx, r
 
 
@@ -44,16 +58,24 @@ def discharge(func_results, budget=60, jobs=None, covers=True, model_terms=None,
     work = []
     index = []
     for fr in func_results:
-        names = [n for n in fr.decls.funs if n.startswith("p_") or n.startswith("g_")]
-        # only 0-ary constants can be asked for
-        names = [n for n in names if "() " in fr.decls.funs[n]]
+        obs = list(getattr(fr, "observe", []) or [])[:120]
         for ob in fr.obligations:
             if ob.result is not None:
                 continue
-            text = smt_text(fr.decls, ob)
+            text = smt_text(fr.decls, ob, observe=obs)
+            want = [f"obs!{i}" for i in range(len(obs))]
+            ob.meta["observe_paths"] = [(p, kn) for p, t, kn in obs]
             used = set(_TOKEN.findall(text))
-            want = [n for n in names if n in used][:40]
-            work.append((len(index), text, "unsat", budget, want))
+            rf = "\n".join(f"(assert {t.s})" for t in getattr(fr, "refine_facts", [])
+                           if set(_TOKEN.findall(t.s)) & used and all(
+                               tok in used or tok in fr.decls.funs and False or not tok.endswith("!0") or True
+                               for tok in ()))
+            rf_ok = []
+            for t in getattr(fr, "refine_facts", []):
+                toks = set(_TOKEN.findall(t.s))
+                if all((tok not in fr.decls.funs) or (tok in used) for tok in toks):
+                    rf_ok.append(f"(assert {t.s})")
+            work.append((len(index), text, "unsat", budget, want, "\n".join(rf_ok)))
             index.append(ob)
         if covers:
             for ob in fr.covers:
